@@ -136,6 +136,32 @@ fn laws(ctx: &mut Ctx) {
             }
         }
     }
+    // CAPTURE with an interrupt raised inside its body: the text printed up to the interrupt is bound
+    // all the same (the interrupt concerns the enclosing loop, not the binding)
+    for x in ["x", "a", "size"] {
+        for (intr, want) in [(Node::Break, "got1"), (Node::Continue, "got3")] {
+            for has_datum in [false, true] {
+                let mut d = Object::new();
+                if has_datum {
+                    d.insert(x.to_string().into(), Value::scalar("DATA"));
+                }
+                let cap = Node::Capture(x.into(), vec![text("got"), out(var("i")), intr.clone(), text("never")]);
+                let inner = vec![cap, text("unreached")];
+                for nest in 0..3 {
+                    let body = match nest {
+                        0 => inner.clone(),
+                        1 => vec![Node::Cond { c: Cond::Exist(Expr::Lit(Value::scalar(true))), mode: true, thn: inner.clone(), els: None, elsif: false }],
+                        _ => vec![Node::Capture("outer".into(), inner.clone())],
+                    };
+                    let t = vec![Node::For { x: "i".into(), rng: RangeE::Counted(lit_i(1), lit_i(3)), limit: None, offset: None, rev: false, body, els: None }, text(M), out(var(x))];
+                    let obs = render_text(&parser, &src_tmpl(&t), &d);
+                    let ok = matches!(&obs, Obs::Ok(s) if s.rfind(M).map(|p| &s[p + M.len()..] == want).unwrap_or(false));
+                    let k = if ok { "law".to_string() } else { format!("CAPTURE:want={}", crate::proto::hex(want)) };
+                    ctx.emit(render_case("c04", &k, &t, &d, &partials, &obs));
+                }
+            }
+        }
+    }
     for i in 0..n {
         let x = names[g.rng.below(names.len())].to_string();
         let mut data = Object::new();
